@@ -831,19 +831,26 @@ class Network:
         )
         self.peer_connections.append(connection)
 
-        await connection.connect()
-        await connection.send_message(
-            PeerInit.Request(
-                self._settings.credentials.username,
-                typ,
-                ticket
+        try:
+            await connection.connect()
+            await connection.send_message(
+                PeerInit.Request(
+                    self._settings.credentials.username,
+                    typ,
+                    ticket
+                )
             )
-        )
 
-        self._finalize_peer_connection(connection)
+            self._finalize_peer_connection(connection)
 
-        await self._event_bus.emit(
-            PeerInitializedEvent(connection, requested=True))
+            await self._event_bus.emit(
+                PeerInitializedEvent(connection, requested=True))
+
+        except BaseException:
+            # The connection is not going to be returned (error, cancellation):
+            # make sure it is closed and no longer registered
+            await connection.disconnect(CloseReason.REQUESTED)
+            raise
 
         return connection
 
